@@ -180,6 +180,19 @@ def chain_cases(tier):
             ops = [cls[(i * 7 + k) % len(cls)] for i in range(n - 1)]
             atoms = [["a", "b2", "x_1", "arr(i)", "1.0e-3", "z1"][(i + k) % 6] + ("" if i % 3 else "") for i in range(n)]
             yield make_case(chain_tree(ops, atoms), " " if k % 2 else "", "assign" if k % 3 == 0 else "expr", "f2003" if k % 2 else "f2008", k)
+        # chains whose operands are all DISTINCT non-trivial parenthesised groups / argument lists (10+ of them at one
+        # nesting level: fparser numbers the masked groups, and number 1 is a textual prefix of numbers 10-19)
+        for n in (11, 14, 23):
+            k += 1
+            ops = [cls[(i * 5 + k) % len(cls)] for i in range(n - 1)]
+            if cls[0] in (".and.", ".or.", ".eqv."):
+                atoms = [["lf(i + %d, 2)", "lg(.not. p%d)", "lm(%d:)"][i % 3] % i for i in range(n)]
+            elif cls[0] == "//":
+                atoms = [["cf(i + %d)", "s(%d:i + 1)", "ct(t%d // 'a')"][i % 3] % i for i in range(n)]
+            else:
+                atoms = [["q(i + %d)", "g(%d - j)", "f(x, %d * y)", "w(%d, j - 1)"][i % 4] % i for i in range(n)]
+            for ctx in ("expr", "assign", "arg"):
+                yield make_case(chain_tree(ops, atoms), " ", ctx, "f2003" if k % 2 else "f2008", k)
 
 
 def rand_tree(r, d):
